@@ -1,8 +1,11 @@
 (* C10 property theorems, phase 2: the FULL statements about the repaired code (repairs F14, F15, F15b, C10-N1).
-   Statements only; proofs in ListInv.v / Inv.v / Proofs.v.
+   Statements only; proofs in ListInv.v / Inv.v / Proofs.v.  The state order, the closing set, the guard of disconnect(),
+   the unregistering state and the presence of the life-cycle constructs are GENERATED from connection.py / network.py
+   (SlskGen.C10LifeGen, translate/tr_c10life.py): the theorems are re-proved against what the source says on every run.
    [run (init k t) es] is the connection machine of Model.v after the event list es; [reported] is the
    chronological ConnectionStateChangedEvent stream.  Every theorem quantifies over EVERY event list. *)
 From Slsk Require Import Base.Tac.
+From SlskGen Require Import C10LifeGen.
 From Slsk Require Import C10.Model C10.Proofs.
 
 (* reported states only move forward; only the server connection may go CLOSED -> CONNECTING *)
@@ -62,7 +65,7 @@ Proof. exact registry_exact. Qed.
 
 Theorem C10_close_unregisters : forall c,
   (in_reg (finish_close c) = false /\ st (finish_close c) = CLOSED /\ writer (finish_close c) = WNone) /\
-  (closing (st c) = false ->
+  (guarded (st c) = false ->
    let c' := fst (do_disconnect c) in
    (writer c = WNone -> firstn 2 (rep c') = [CLOSED; CLOSING] /\ in_reg c' = false) /\
    (writer c <> WNone -> firstn 1 (rep c') = [CLOSING] /\ closers c' = S (closers c) /\ in_reg c' = in_reg c)).
